@@ -5,6 +5,9 @@ import (
 	"encoding/json"
 	"fmt"
 	"net"
+	"os"
+	"os/exec"
+	"runtime"
 	"sort"
 	"strings"
 	"sync"
@@ -283,9 +286,11 @@ func c11RunOnce(s c11Scenario, settle time.Duration) lab.WorkerResult {
 	returned := 0
 	var stopErr error
 	timedOut := false
-	for _, ch := range chans {
+	consumed := map[int]bool{}
+	for ci, ch := range chans {
 		select {
 		case r := <-ch:
+			consumed[ci] = true
 			returned++
 			if r.err != nil {
 				stopErr = r.err
@@ -358,9 +363,53 @@ func c11RunOnce(s c11Scenario, settle time.Duration) lab.WorkerResult {
 			return lab.WorkerResult{OK: false, FP: "stop-hang-spinning:" + strings.Join(names, "+"), Delivered: true,
 				Msg: fmt.Sprintf("%s: Server.Stop did not return within 15 s although this process was scheduled normally (%d of 1000 ticks); the server's goroutines keep running without finishing:\n%s", desc, ticks, lab.Describe(dump, 10))}
 		}
+		// A stable census at the bound is strong evidence, but one observation in some 40 000 scenarios (thorough
+		// sweep at seed 2, machine fully loaded, never reproduced in 30 000 further scenarios) showed a handler
+		// parked in Write at 5.5 s whose write deadline should have fired at 0.5 s. Before the verdict the
+		// scenario therefore waits on: a Stop that returns after all (within 20 s in total) was late, not hung -
+		// reported as inconclusive with all diagnostics - and only a Stop that is STILL waiting then, with the
+		// same goroutines parked in the same places, is a hang.
+		firstKey := lab.Describe(dump, 10)
+		waited := time.Now()
+		returnedLate := false
+		for time.Since(waited) < 15*time.Second && !returnedLate {
+			time.Sleep(50 * time.Millisecond)
+			pending := 0
+			for ci, ch := range chans {
+				if consumed[ci] {
+					continue
+				}
+				select {
+				case <-ch:
+					consumed[ci] = true
+				default:
+					pending++
+				}
+			}
+			returnedLate = pending == 0
+		}
+		// everything that may explain a hang goes into the message: the kernel's view of this process's sockets
+		// (timers, queues) and every goroutine
+		diag := ""
+		if out, err := exec.Command("sh", "-c", fmt.Sprintf("ss -tanoip 2>/dev/null | grep -E 'pid=%d,' | head -60", os.Getpid())).CombinedOutput(); err == nil {
+			diag += "\nsockets of this process (ss -tanoip):\n" + string(out)
+		}
+		buf := make([]byte, 256<<10)
+		buf = buf[:runtime.Stack(buf, true)]
+		if len(buf) > 48<<10 {
+			buf = buf[:48<<10]
+		}
+		diag += "\nall goroutines:\n" + string(buf)
+		if returnedLate {
+			closeAll()
+			return lab.WorkerResult{Skipped: fmt.Sprintf("Stop returned only %v after it was called (bound %v, census stable at the bound): late, not hung - inconclusive: %s\ncensus at the bound:\n%s%s", (c11Bound + time.Since(waited)).Round(100*time.Millisecond), c11Bound, desc, firstKey, diag), Delivered: true}
+		}
+		if _, dump2 := lab.StableCensus(200 * time.Millisecond); lab.Describe(dump2, 10) != firstKey {
+			dump = dump2
+		}
 		closeAll()
 		return lab.WorkerResult{OK: false, FP: "stop-hang:" + strings.Join(names, "+"), Delivered: true,
-			Msg: fmt.Sprintf("%s: Server.Stop did not return within %v; stable goroutine census (two identical snapshots 0.5 s apart):\n%s", desc, c11Bound, lab.Describe(dump, 10))}
+			Msg: fmt.Sprintf("%s: Server.Stop did not return within %v (stable goroutine census at %v, two identical snapshots 0.5 s apart; still not returned %v later):\n%s%s", desc, c11Bound+15*time.Second, c11Bound, 15*time.Second, lab.Describe(dump, 10), diag)}
 	}
 	if stopErr != nil {
 		closeAll()
